@@ -48,3 +48,148 @@ def run(ctx, rep):
     red = [c for c in walk_no_nested(pd_.node) if isinstance(c, ast.Call) and call_name(c) in ('all', 'any', 'sum', 'max', 'min', 'mean')]
     rep.check('D3.rows', pd_, red[0] if red else pd_.node.name, not red, 'finite-difference fallback is elementwise',
               'the finite-difference fallback reduces over the batch', construct='Bivariate.partial_derivative')
+    rep.guarded('D6.fd', finite_difference, ctx, rep)
+
+
+# ------------------------------------------------------------------ D6 finite-difference fallback
+def _fd_term(prog, fn, e, env, xp):
+    """Small symbolic terms for the straight-line body of the finite-difference fallback."""
+    if isinstance(e, ast.Constant) and isinstance(e.value, (int, float)) and not isinstance(e.value, bool):
+        return ('num', float(e.value))
+    if isinstance(e, ast.Name):
+        if e.id in env:
+            return env[e.id]
+        if e.id == xp:
+            return ('X',)
+        from ..constfold import fold
+        v = fold(prog, fn.module, e)
+        return ('num', v) if v is not None else ('opaque', e.id)
+    if isinstance(e, ast.UnaryOp) and isinstance(e.op, ast.USub):
+        return ('neg', _fd_term(prog, fn, e.operand, env, xp))
+    if isinstance(e, ast.BinOp) and type(e.op) in (ast.Add, ast.Sub, ast.Mult, ast.Div):
+        return ({ast.Add: 'add', ast.Sub: 'sub', ast.Mult: 'mul', ast.Div: 'div'}[type(e.op)],
+                _fd_term(prog, fn, e.left, env, xp), _fd_term(prog, fn, e.right, env, xp))
+    if isinstance(e, ast.Compare):
+        return ('cmp', ast.unparse(e))
+    if isinstance(e, ast.Call):
+        if isinstance(e.func, ast.Attribute) and e.func.attr == 'copy' and not e.args:
+            return ('copy', _fd_term(prog, fn, e.func.value, env, xp))
+        if call_name(e) in ('copy', 'array') and e.args and (prog.resolve(fn.module, e.func) or '').startswith('numpy.'):
+            return ('copy', _fd_term(prog, fn, e.args[0], env, xp))
+        if is_self_attr(e.func, fn.self_name) and e.func.attr in ('cumulative_distribution', 'cdf') and len(e.args) == 1:
+            return ('cdf', _fd_term(prog, fn, e.args[0], env, xp))
+        if call_name(e) in ('where',) and len(e.args) == 3:
+            return ('where', ('cmp', ast.unparse(e.args[0])), _fd_term(prog, fn, e.args[1], env, xp), _fd_term(prog, fn, e.args[2], env, xp))
+    if isinstance(e, ast.Attribute) and isinstance(e.value, ast.Name) and e.attr in ('values',):
+        return _fd_term(prog, fn, e.value, env, xp)
+    return ('opaque', ast.unparse(e)[:40])
+
+
+def _fd_fold(t, truth):
+    """Numeric value of a step term with every comparison taken as `truth` (1.0 / 0.0); None when not foldable."""
+    k = t[0]
+    if k == 'num':
+        return t[1]
+    if k == 'cmp':
+        return truth
+    if k == 'neg':
+        v = _fd_fold(t[1], truth)
+        return None if v is None else -v
+    if k == 'where':
+        return _fd_fold(t[2] if truth else t[3], truth)
+    if k in ('add', 'sub', 'mul', 'div'):
+        a, b = _fd_fold(t[1], truth), _fd_fold(t[2], truth)
+        if a is None or b is None:
+            return None
+        if k == 'div':
+            return a / b if b else float('inf')
+        return a + b if k == 'add' else a - b if k == 'sub' else a * b
+    return None
+
+
+def finite_difference(ctx, rep):
+    prog = ctx.prog
+    rep.rule('D6.fd', 'the finite-difference fallback of the base class returns (C(x + d e_v) - C(x)) / d: the perturbed point is a copy of X with '
+             'the step added to column 1 (the conditioning variable v), the same step divides the difference, and the step is non-zero and at most 1e-3')
+    fn = prog.method('copulas.bivariate.base.Bivariate', 'partial_derivative', inherited=False)
+    xp = fn.params[1]
+    env, col, ok_shape = {}, {}, True
+    ret = None
+    for s in fn.body():
+        if isinstance(s, ast.Expr) and isinstance(s.value, ast.Constant):
+            continue
+        if isinstance(s, ast.Assign) and len(s.targets) == 1 and isinstance(s.targets[0], ast.Name):
+            env[s.targets[0].id] = _fd_term(prog, fn, s.value, env, xp)
+        elif isinstance(s, (ast.AugAssign, ast.Assign)) and isinstance(s.targets[0] if isinstance(s, ast.Assign) else s.target, ast.Subscript):
+            tgt = s.targets[0] if isinstance(s, ast.Assign) else s.target
+            base = tgt.value.id if isinstance(tgt.value, ast.Name) else None
+            sl = tgt.slice
+            c = sl.elts[1].value if (isinstance(sl, ast.Tuple) and len(sl.elts) == 2 and isinstance(sl.elts[0], ast.Slice) and sl.elts[0].lower is None
+                                     and sl.elts[0].upper is None and isinstance(sl.elts[1], ast.Constant)) else None
+            if base is None or c is None:
+                ok_shape = False
+                break
+            if isinstance(s, ast.AugAssign) and isinstance(s.op, (ast.Add, ast.Sub)):
+                step = _fd_term(prog, fn, s.value, env, xp)
+                if isinstance(s.op, ast.Sub):
+                    step = ('neg', step)
+            elif isinstance(s, ast.Assign) and isinstance(s.value, ast.BinOp) and isinstance(s.value.op, ast.Add) \
+                    and ast.dump(s.value.left) == ast.dump(tgt).replace('Store()', 'Load()'):
+                step = _fd_term(prog, fn, s.value.right, env, xp)
+            else:
+                ok_shape = False
+                break
+            cur = env.get(base, ('X',) if base == xp else ('opaque', base))
+            env[base] = ('perturbed', cur, c, step)
+            if base == xp or cur == ('X',):
+                # the parameter itself (or an alias of it) is edited: every later C(X) sees the perturbed point too
+                for k_, v_ in list(env.items()):
+                    if v_ == ('X',):
+                        env[k_] = env[base]
+                env['__X_edited__'] = ('perturbed', ('X',), c, step)
+        elif isinstance(s, ast.Return) and s.value is not None:
+            ret = (s, _fd_term(prog, fn, s.value, env, xp))
+            break
+        else:
+            ok_shape = False
+            break
+    anchor = ret[0] if ret else fn.node.name
+    cons = 'Bivariate.partial_derivative: finite difference'
+    if not ok_shape or ret is None:
+        rep.undecided('D6.fd', fn, anchor, 'the body of the fallback is not the straight-line difference quotient the rule models', construct=cons)
+        return
+    t = ret[1]
+    if '__X_edited__' in env:
+        rep.bad('D6.fd', fn, anchor, 'the step is added to the caller\'s array itself (no copy): both evaluations see the same point and the caller\'s data are changed',
+                construct=cons)
+        return
+    if not (t[0] == 'div' and t[1][0] == 'sub' and t[1][1][0] == 'cdf' and t[1][2][0] == 'cdf'):
+        if 'opaque' in repr(t):
+            rep.undecided('D6.fd', fn, anchor, f'the returned expression is not modelled ({repr(t)[:80]})', construct=cons)
+        else:
+            rep.bad('D6.fd', fn, anchor, 'the returned value is not (C(x\') - C(x)) / step', construct=cons)
+        return
+    hi, lo, d = t[1][1][1], t[1][2][1], t[2]
+    if hi == ('X',) and lo[0] == 'perturbed':
+        hi, lo, d = lo, hi, ('neg', d)   # (C(x) - C(x')) / (-step)
+    if not (hi[0] == 'perturbed' and hi[1] == ('copy', ('X',)) and lo == ('X',)):
+        rep.bad('D6.fd', fn, anchor, 'the difference is not taken between C at a perturbed copy of X and C at X', construct=cons)
+        return
+    _p, _b, c, step = hi
+    vals = [(_fd_fold(step, tr), _fd_fold(d, tr)) for tr in (1.0, 0.0)]
+    problems = []
+    if c != 1:
+        problems.append(f'the step is added to column {c}: that is dC/du, not the conditional CDF dC/dv')
+    if any(a is None or b is None for a, b in vals):
+        rep.undecided('D6.fd', fn, anchor, 'the step is not a foldable constant (times a sign selected by a comparison)', construct=cons)
+        return
+    for a, b in vals:
+        if a == 0 or a != a or abs(a) > 1e-3:
+            problems.append(f'the step takes the value {a:g}: not a small non-zero increment')
+            break
+    if not problems and any(abs(a - b) > 1e-18 for a, b in vals):
+        problems.append(f'the difference is divided by {vals[0][1]:g} while the point moved by {vals[0][0]:g}')
+    if problems:
+        rep.bad('D6.fd', fn, anchor, '; '.join(problems), construct=cons)
+    else:
+        rep.ok('D6.fd', fn, anchor, f'(C(copy of X with column 1 moved by {vals[0][0]:g} / {vals[1][0]:g}) - C(X)) / that step', construct=cons)
